@@ -7,6 +7,7 @@ import "github.com/fxamacker/cbor/v2"
 func init() {
 	vRegister("H_C13_encode_single", H_C13_encode_single)
 	vRegister("H_C13_encode_pairs", H_C13_encode_pairs)
+	vRegister("H_C13_encode_dup", H_C13_encode_dup)
 	vRegister("H_C13_decode_single", H_C13_decode_single)
 	vRegister("H_C13_decode_pairs", H_C13_decode_pairs)
 	vRegister("H_C13_cross_bucket", H_C13_cross_bucket)
@@ -371,6 +372,27 @@ func H_C13_encode_pairs() {
 	} else {
 		vAssert("encode/2: a header violating RFC 9052 3.1 is refused", err != nil)
 	}
+	vReach("end")
+}
+
+// one label under two Go spellings, the value of the label fully symbolic in both tiers (all of int64, not
+// only the registered parameters): always a duplicate on the wire, always refused
+func H_C13_encode_dup() {
+	vMapOrder()
+	protected := vChoose("bucket", 2) == 0
+	l0, s0 := c13GoLabel("e0", 10)
+	l1, s1 := c13GoLabel("e1", 10)
+	vAssume(!s0.bad && !s1.bad && s0.i == s1.i)
+	// values every parameter admits in neither bucket are beside the point: unregistered labels take anything,
+	// registered ones are refused for a second reason at most
+	m := map[any]any{l0: vBlob("e0.vb")}
+	if _, dup := m[l1]; dup {
+		vReach("same go key")
+		return
+	}
+	m[l1] = vBlob("e1.vb")
+	err := c13Marshal(m, protected)
+	vAssert("encode/dup: one label spelt with two Go integer types is refused", err != nil)
 	vReach("end")
 }
 
